@@ -470,8 +470,6 @@ class Direct:
               has never been in the tree and whose own (detached) path spells the same key.
       C16-F3  the same clobbering by an alias that HAS been in the tree and was deleted or replaced since (its stale entry in the
               aliases of a replaced object is re-targeted by set_member and re-registers under the path it no longer occupies).
-      C16-F2  after a set_member replacement a followed alias's target_path is the path the new member had BEFORE it was attached
-              (or the alias did not follow because that stale path equals the alias's own path: spurious CyclicAliasError).
     """
 
     def __init__(self, ctx, w: World, label: str):
@@ -497,12 +495,6 @@ class Direct:
         """Finding id when the failure satisfies that finding's exact predicate, else None (= a new violation)."""
         clause, detail, aid = f
         w = self.w
-        if clause == "alias-follows-replacement":
-            if detail.get("sub") == "target_path" and detail["target_path"] == pre_path and pre_path != detail["expected"]:
-                return "C16-F2"
-            if detail.get("sub") is None and pre_path is not None and pre_path == detail["alias"] and pre_path != detail.get("now"):
-                return "C16-F2"     # the same early read of value.path makes the self-reference guard compare a stale path
-            return None
         if clause != "backref-listed" or aid is None or aid < 0:
             return None
         a = w.objs[aid]
@@ -1287,12 +1279,10 @@ def impl_only_history(ctx, n, label="impl-only"):
         except _Done:
             ctx.observe("impl_only_outcome", "ok")
         except RuntimeError as e:
-            # C16-F5: the re-targeting loop of set_member iterates the very dictionary it writes to (the stubs merge kept the
-            # existing module, which therefore "replaces" itself) and an alias registered under an outdated key makes it grow
+            # an internal error escaping from the object API (was C16-F5: the re-targeting loop iterating the dictionary it writes to)
             hist.append(["->", "RuntimeError"])
-            fid = "C16-F5" if "dictionary changed size during iteration" in str(e) else None
-            ctx.observe("direct_failure", "impl-only:operation-crashes" + ("/F5" if fid else ""))
-            ctx.property_failure({"stream": label, "history": list(hist)}, {"clause": "operation-crashes", "detail": str(e)[:100]}, finding=fid)
+            ctx.observe("direct_failure", "impl-only:operation-crashes")
+            ctx.property_failure({"stream": label, "history": list(hist)}, {"clause": "operation-crashes", "detail": str(e)[:100]}, finding=None)
             return
         except (KeyError, AttributeError, ValueError, ARE, CAE) as e:
             hist.append(["->", type(e).__name__])
@@ -1320,9 +1310,7 @@ def impl_only_history(ctx, n, label="impl-only"):
                 fid = "C16-F4" if same else None
                 ctx.observe("direct_failure", "impl-only:through-alias:" + bad + ("/F4" if fid else ""))
                 ctx.property_failure({"stream": label, "history": list(hist)}, {"clause": bad, "detail": {"key": str(k), "through_alias": True}}, finding=fid)
-                if fid is None:
-                    return
-                return      # the inserted object now hangs under a transient alias: the history ends here
+                return      # (known: the inserted object now hangs under a transient alias, the history ends here)
         for q, c2, m in walk():
             dotted = ".".join(q)
             bad = None
@@ -1422,39 +1410,39 @@ def replay_witness(ctx):
     return reproduced
 
 
-def replay_witness_f2(ctx):
-    griffe, _, _ = _griffe()
-    col = griffe.ModulesCollection()
-    m = griffe.Module("m")
+def fixed_witnesses(ctx):
+    """The witnesses of the repaired findings C16-F2, C16-F5: each must PASS now (a failure is a new violation)."""
+    g, _, _ = _griffe()
+    # F2: the followed alias names the replacement by its full path
+    col = g.ModulesCollection()
+    m = g.Module("m")
     col.set_member("m", m)
-    m.set_member("f", griffe.Function("f"))
-    al = griffe.Alias("al", "m.f")
+    m.set_member("f", g.Function("f"))
+    al = g.Alias("al", "m.f")
     m.set_member("al", al)
     al.resolve_target()
-    f2 = griffe.Function("f")
+    f2 = g.Function("f")
     m.set_member("f", f2)
-    ctx.witness("C16-F2", al.target is f2 and f2.path == "m.f" and al.target_path == "f")
-
-
-def replay_witness_f5(ctx):
-    g, _, _ = _griffe()
+    if not (al.target is f2 and f2.path == "m.f" and al.target_path == "m.f" and m.resolve("al") == "m.f"):
+        ctx.property_failure({"stream": "fixed-witness", "history": "C16-F2"}, {"clause": "alias-follows-replacement", "detail": {"target_path": al.target_path}})
+    # F5: re-assigning a member to itself with an alias registered under an outdated key
     col = g.ModulesCollection()
     m = g.Module("m")
     col.set_member("m", m)
     f = g.Function("f")
     m.set_member("f", f)
     c = g.Class("C")
-    al = g.Alias("al", f)
-    c.set_member("al", al)       # registered as 'C.al' (C16-F1)
+    a2 = g.Alias("al", f)
+    c.set_member("al", a2)
     m.set_member("C", c)
     try:
-        m.set_member("f", f)     # the same object again: the loop writes f.aliases['m.C.al'] while iterating f.aliases
-        ok = False
-    except RuntimeError as e:
-        ok = "dictionary changed size" in str(e)
+        m.set_member("f", f)
+        ok = m.members["f"] is f and a2.target is f
     except Exception:  # noqa: BLE001
         ok = False
-    ctx.witness("C16-F5", ok)
+    if not ok:
+        ctx.property_failure({"stream": "fixed-witness", "history": "C16-F5"}, {"clause": "operation-crashes", "detail": "self re-assignment"})
+    ctx.count("fixed_witnesses", 2)
 
 
 def replay_witness_f4(ctx):
@@ -1504,14 +1492,11 @@ def explore(ctx):
     rng = ctx.rng
     if "C16-F1" in ctx.known:
         replay_witness(ctx)
-    if "C16-F2" in ctx.known:
-        replay_witness_f2(ctx)
     if "C16-F3" in ctx.known:
         replay_witness_f3(ctx)
     if "C16-F4" in ctx.known:
         replay_witness_f4(ctx)
-    if "C16-F5" in ctx.known:
-        replay_witness_f5(ctx)
+    fixed_witnesses(ctx)
     check_parts(ctx)
 
     # corpus
